@@ -324,7 +324,9 @@ COW_OF = {"C07": ("", "64"), "C08": ("",), "C13": ("",), "C11": ("",), "C12": ("
 for _p, _g in CMP_OF.items():
     PROPS[_p]["theorems"] = list(PROPS[_p].get("theorems", [])) + CMP(*_g) + \
         ["RModel.Facts.cowSkeleton%s_pinned" % g for g in COW_OF.get(_p, ())]
-    PROPS[_p]["modules"] = list(PROPS[_p].get("modules", [])) + [CMP_MOD]
+    # one module per pinned skeleton: a change in one group of source files breaks the properties mapped to that group only
+    PROPS[_p]["modules"] = list(PROPS[_p].get("modules", [])) + ["RProofs.Facts.CmpPins.CmpSkeleton%s" % g for g in _g] + \
+        ["RProofs.Facts.CmpPins.CowSkeleton%s" % g for g in COW_OF.get(_p, ())]
 
 # the readable top layer: lean/RProofs/Statements/Cxx.lean restates every clause of the property (theorems `clause_*`); all of them
 # are obligations of that property
